@@ -66,7 +66,7 @@ Section C07.
   Context {V Ch Req D : Type}.
   Context (candidate : V -> Ch -> V) (candidate_rb : V -> Ch -> V) (rollback_of : V -> Ch -> Ch)
           (overlay : V -> V -> V) (commit_merge : N -> N -> V -> V -> Ch -> V)
-          (payload : N -> V -> Ch -> option Req) (record_applied : N -> V -> V -> V -> Ch -> V)
+          (payload : N -> V -> Ch -> option Req) (record_applied : N -> N -> V -> V -> V -> Ch -> V)
           (touched : N -> V -> Ch -> V) (restore : V -> V -> V)
           (resync_payload : V -> list (option Req)) (doc_ok : V -> bool)
           (dev_apply : D -> Req -> D) (stamp : N -> Ch -> Ch) (v_empty : V) (d_empty : D) (ch_empty : Ch).
@@ -187,8 +187,8 @@ Section C07.
     sendable w1 t i P C m req
     ∧ dev_answer w1 t (c_term C) o' = o_answer o'
     ∧ rec_prop o' w1 (t, i) =
-    after_answer overlay record_applied touched restore v_empty ch_empty t i P C m req
-    (o_answer o').
+    after_answer overlay record_applied touched restore v_empty ch_empty 
+    (o_order o') t i P C m req (o_answer o').
   Proof. exact (@apply_resume_after_send V Ch Req D candidate candidate_rb rollback_of overlay commit_merge payload record_applied touched restore resync_payload doc_ok dev_apply stamp v_empty d_empty ch_empty). Qed.
 
   (* stopped before the proposal write: only the proposal write *)
@@ -215,8 +215,8 @@ Section C07.
     sendable w1 t i P C m req
     ∧ devs w1 = devs w
     ∧ rec_prop o' w1 (t, i) =
-    after_answer overlay record_applied touched restore v_empty ch_empty t i P C m req
-    (dev_answer w t (c_term C) o').
+    after_answer overlay record_applied touched restore v_empty ch_empty 
+    (o_order o') t i P C m req (dev_answer w t (c_term C) o').
   Proof. exact (@refused_apply_resume_after_send V Ch Req D candidate candidate_rb rollback_of overlay commit_merge payload record_applied touched restore resync_payload doc_ok dev_apply stamp v_empty d_empty ch_empty). Qed.
 
   (* refused, stopped anywhere after the proposal write: FAILED stays, re-run completes the index move *)
